@@ -349,6 +349,12 @@ impl ServerState {
     /// this process until `is_compiling` becomes false.
     pub async fn wait_for_parsing(&self) {
         loop {
+            // Register for the notification *before* looking at the flags: `notify_waiters` only
+            // wakes waiters that are already registered, so a notification sent between the check
+            // and the registration would be lost and this task would wait for ever.
+            let notified = self.finished_compilation.notified();
+            tokio::pin!(notified);
+            notified.as_mut().enable();
             #[cfg(fuellabs_sway_verif)]
             sway_types::verif_hooks::point("wfp.check", &|| {
                 format!(
@@ -376,7 +382,7 @@ impl ServerState {
             #[cfg(fuellabs_sway_verif)]
             sway_types::verif_hooks::about_to_block("wfp.park", &|| String::new());
             // We are still compiling, lets wait to be notified.
-            self.finished_compilation.notified().await;
+            notified.await;
             #[cfg(fuellabs_sway_verif)]
             sway_types::verif_hooks::resumed("wfp.woke", &|| String::new());
         }
